@@ -469,6 +469,32 @@ def run_single(ctx, cfg):
             ctx.dist["api/single/list-sample-missing-in-one-element/transform ACCEPTED"] += 1
         except Exception:
             ctx.dist["api/single/list-sample-missing-in-one-element/transform refused"] += 1
+    if layout == "list" and len(keep_r) >= 2:
+        # the same NUMBER of entirely missing samples in every list element, at DIFFERENT positions: the elements
+        # have equally many samples left, but not the same ones - refuse (or delete both), never pair by position
+        ia, ib = [int(v) for v in r.choice(keep_r, size=2, replace=False)]
+        Mo = masked(M, miss_r, miss_c)
+        Mo[ia, :6] = np.nan
+        Mo[ib, 6:] = np.nan
+        Xo = build(layout, Mo, tl)
+        lkey = "C06:list:samples-missing-at-different-positions"
+        try:
+            mo = EOF(**kw)
+            mo.fit(Xo, "time")
+            so = np.asarray(mo.scores().transpose("time", "mode").values, float)
+            # accepted: then it has to be the fit with both samples deleted everywhere
+            Md = masked(M, sorted(set(miss_r) | {ia, ib}), miss_c)
+            md = EOF(**kw)
+            md.fit(build(layout, Md, tl), "time")
+            sd = np.asarray(md.scores().transpose("time", "mode").values, float)
+            g = so.shape == sd.shape and bool(np.array_equal(np.isnan(so), np.isnan(sd))) and close(np.abs(np.nan_to_num(so)), np.abs(np.nan_to_num(sd)))[0]
+            if not g:
+                ctx.violation(lkey + ":fit-pairs-by-position", "%s: fit accepted a list whose elements miss one sample each at different positions "
+                              "(%d in the first, %d in the second element) and the result is not the fit with both samples deleted" % (what, ia, ib),
+                              dict(rp, failed="list-different-positions-fit", positions=[ia, ib]))
+            ctx.dist["api/single/list-samples-missing-at-different-positions/fit ACCEPTED"] += 1
+        except Exception:
+            ctx.dist["api/single/list-samples-missing-at-different-positions/fit refused"] += 1
     if cfg["rotate"]:
         rkw = dict(n_modes=cfg["k"], power=cfg["power"])
         rkey = "C06:rotated:EOFRotator"
